@@ -22,6 +22,8 @@ def gates(ctx, thorough):
     if recs[0]["bad"] != 0:
         raise tlc.MachineryError("MC_DiskLen: length bookkeeping fails for %d lengths" % recs[0]["bad"])
     ctx.cov["models"]["MC_DiskLen"] = {"kind": "theorem evaluated by TLC, exhaustive", "stream_lengths": recs[0]["lengths"], "wall_s": round(r.wall, 2)}
+    r = tlc.check_model("MC_DiskInd", "MC_DiskInd", workers=6, heap="8g")
+    ctx.add_model("MC_DiskInd(invariants inductive: every consistent state of the 4-granule / 2-slot geometry, one more add)", r)
 
 
 def judge(ctx, name, hists, t0):
@@ -186,9 +188,15 @@ def run(ctx):
     gates(ctx, thorough)
     model_sequences(ctx, rnd, thorough)
     run_histories(ctx, "boundary-lengths", boundary_histories(rnd, thorough))
-    run_histories(ctx, "random-histories", random_histories(rnd, 1500 if thorough else 120))
+    run_histories(ctx, "random-histories", random_histories(rnd, 1500 if thorough else (60 if ctx.prop == "C15" else 120)))
     run_histories(ctx, "exhaustion", exhaustion_histories(rnd, thorough))
     spec_written_images(ctx, rnd, 600 if thorough else 60)
+    if ctx.prop == "C15":
+        # host level: a file that does not fit fails with an error and the host file is left as it was
+        from harness.props import c09
+        r = tlc.check_model("MC_Host", "MC_Host", workers=6, heap="8g")
+        ctx.add_model("MC_Host(CapacityRespected)", r)
+        c09.host_suites(ctx, rnd, thorough, n_sample=1500 if thorough else 0)   # the full first-step matrix (incl. full disks) + append sequences to a full disk
     ctx.cov["rule"] = ("add-sequences of the abstract allocation machine (TLC-exported), single files at every stream length within 11 bytes of a granule multiple and at sector "
                        "boundaries x {ML, BASIC, ASCII}, names/extensions of all length classes, random 2-6 file histories under default and permuted fill orders, runs to a full "
                        "disk (slots, granules, mixtures); after every add the image delta is judged by TLC (Tr_Disk) per file; for C07 also images written by the specification "
